@@ -27,11 +27,15 @@ type svidSource struct {
 // GetX509SVID returns the current X.509 certificate identity as a SPIFFE SVID.
 // Implements the go-spiffe x509 source interface.
 func (s *svidSource) GetX509SVID() (*x509svid.SVID, error) {
+	// Wait for readiness before taking the lock: Run holds the write lock until
+	// the initial fetch is done, and a reader queued behind it would otherwise
+	// keep the lock away from Run for ever if it got in first
+	<-s.spiffe.readyCh
+
 	s.spiffe.lock.RLock()
 	defer s.spiffe.lock.RUnlock()
 
 	verifPoint("getsvid.rlocked")
-	<-s.spiffe.readyCh
 
 	svid := s.spiffe.currentSVID
 	if svid == nil {
